@@ -83,6 +83,7 @@ class Opaque:
     """A symbolic value the interpreter only moves around (an argument of the analysed function)."""
 
     name: str
+    dtype: Any = None  # optional element type name ('float32', 'int16' ...) for rules that follow conversions
 
 
 class PyStub:
@@ -117,6 +118,37 @@ class Sym:
         if self.op == 'call':
             return f'{self.args[0]!r}(' + ', '.join(repr(x) for x in self.args[1:]) + ')'
         return f'{self.op}(' + ', '.join(repr(x) for x in self.args) + ')'
+
+
+_DTYPE_KEEPING = {'jnp.round', 'jnp.rint', 'jnp.around', 'jnp.floor', 'jnp.ceil', 'jnp.trunc', 'jnp.abs', 'jnp.negative', 'neg', 'pos', 'jnp.asarray', 'jnp.array', 'jnp.squeeze', 'jnp.ravel'}
+
+
+def sym_dtype(x: Any) -> str | None:
+    """Element type of a symbolic array expression, when it follows from the expression alone."""
+    if isinstance(x, Opaque):
+        return x.dtype
+    if isinstance(x, Sym):
+        if x.op in _DTYPE_KEEPING and x.args:
+            return sym_dtype(x.args[0])
+        if x.op == 'call' and isinstance(x.args[0], Sym) and x.args[0].op == '.astype' and len(x.args) >= 2:
+            t = x.args[1]
+            if isinstance(t, Ref):
+                return t.path.split('.')[-1]
+            if isinstance(t, str):
+                return t
+    return None
+
+
+_KINDS = {
+    'integer': {'int8', 'int16', 'int32', 'int64', 'uint8', 'uint16', 'uint32', 'uint64'},
+    'signedinteger': {'int8', 'int16', 'int32', 'int64'},
+    'unsignedinteger': {'uint8', 'uint16', 'uint32', 'uint64'},
+    'floating': {'float16', 'bfloat16', 'float32', 'float64'},
+    'inexact': {'float16', 'bfloat16', 'float32', 'float64', 'complex64', 'complex128'},
+    'complexfloating': {'complex64', 'complex128'},
+    'number': {'int8', 'int16', 'int32', 'int64', 'uint8', 'uint16', 'uint32', 'uint64', 'float16', 'bfloat16', 'float32', 'float64', 'complex64', 'complex128'},
+    'bool_': {'bool'},
+}
 
 
 @dataclass(frozen=True)
@@ -601,6 +633,13 @@ class Interp:
             if isinstance(args[0], AxArr):
                 return True
             return UNK
+        if path == 'jnp.issubdtype' and len(args) == 2 and all(isinstance(x, Ref) for x in args):
+            a_, b_ = args[0].path.split('.')[-1], args[1].path.split('.')[-1]
+            if b_ in _KINDS and a_ in _KINDS['number'] | {'bool'}:
+                return a_ in _KINDS[b_]
+            if a_ in _KINDS['number'] and b_ in _KINDS['number']:
+                return a_ == b_
+            return UNK
         if path == 'jnp.iinfo' and len(args) == 1:
             x = args[0]
             if isinstance(x, IInfo):
@@ -710,6 +749,8 @@ class Interp:
         if v is UNK:
             return UNK
         if isinstance(v, (Opaque, Sym)) and self.symbolic:
+            if name == 'dtype' and sym_dtype(v) is not None:
+                return Ref('numpy.' + sym_dtype(v))
             return Sym('.' + name, (v,))
         if isinstance(v, AxArr):
             return self.attr_of_array(v, name)
@@ -988,7 +1029,7 @@ class Interp:
             raise Undecided('iteration over a non-iterable')
 
     def truth(self, v: Any) -> bool:
-        if v is UNK or isinstance(v, (AxArr, Flat, Cat, DiagOf)):
+        if v is UNK or isinstance(v, (AxArr, Flat, Cat, DiagOf, Opaque, Sym, Promoted, Built)):
             raise Undecided('branch on an abstract value')
         if isinstance(v, (Obj, Func, Ref, ClassRef)):
             return True
